@@ -42,6 +42,11 @@ func (e *Executor) Status(ctx context.Context, calls ...*Call) error {
 }
 
 func (e *Executor) statusOnError(t *ast.Task) error {
+	// A dry run never wrote fingerprint state, so there is nothing to forget
+	// (and it must not touch the state of earlier real runs)
+	if e.Dry {
+		return nil
+	}
 	method := t.Method
 	if method == "" {
 		method = e.Taskfile.Method
